@@ -16,12 +16,25 @@
 // validations, declared errors of every kind and level, undeclared errors, views, Accept
 // negotiation) 2-3 threads each issue one request {valid, invalid, declared error, undeclared
 // error, other view, other Accept} through the generated client over an in-memory wire.
+// REQUEST MATRIX (both families): request kind = negotiated response encoding {json, xml, gob,
+// text/plain, text/html} x outcome class {success, validation failure, declared error, undeclared
+// error, 404 from the muxer's not-found handler, 405}; a scenario = [sequential prefix request
+// run single-threaded on the mounted server: "start from non-initial states"] ; 2-3 requests in
+// flight, each a complete round trip client (RequestEncoder, Doer, ResponseDecoder) -> in-memory
+// wire (scheduling point) -> server. Family A: all 465 pairs of kinds without prefix, one
+// encoding x every prefix outcome x every outcome pair, any prefix kind x success pairs, 3-thread
+// samples (quick); the full product {none + 30 prefixes} x 465 pairs and 560 3-thread scenarios
+// (thorough). Family B: Accept set on the wire so every generated handler answers in every
+// encoding, raw not-found requests, prefix requests (menus in checks/c20b/scen).
+// sync.Pool (shim): a Get returns ANY value Put before or a fresh one, every alternative explored.
 // Bound: 2-3 threads x 1-2 operations, every schedule with <= 2 preemptions (thorough: 3 for two
 // threads); executions run to completion; explicit step horizon.
 // Oracle: happens-before race oracle over every instrumented access; differential per-thread
 // oracle (status, headers, body modulo error ID equal the thread's result alone on a fresh
-// instance; family B additionally: decoded client result or error, payload received by the
-// service); no deadlock, no panic. Scenario lists: checks/c20/scen/scen.go, checks/c20b/scen/scen.go.
+// instance WITHOUT prefix and peers; family B additionally: decoded client result or error,
+// payload received by the service); no deadlock, no panic. Pool misuse is judged only through
+// these oracles. Scenario lists: checks/c20/scen/scen.go, checks/c20/scen/matrix.go,
+// checks/c20b/scen/scen.go.
 package main
 
 import (
